@@ -98,6 +98,7 @@ func (g *Gen) newStruct(depth int, uniform bool, top ...bool) *Type {
 		}
 		if r.Chance(1, 8) && g.on("attr.align") && (isTop || g.on("attr.align.nested")) {
 			ms[i].Align = []int{16, 32}[r.Intn(2)]
+			ms[i].AttrSuffix = []string{"", "", "u", "i"}[r.Intn(4)]
 			g.feat("attr.align")
 			if !isTop {
 				g.feat("attr.align.nested")
